@@ -26,8 +26,8 @@ RULE = ("energies on a log grid over [1 eV, 10 MeV] (both end points included) p
         "log-uniform in [1e-9, 1], for the monotonicity clause and a seeded reciprocal sampling tuple of length 1..3 "
         "(log-uniform 1e-4..10 1/A); rejection cases enumerate non-positive energies (0, -0.0, negative ints/floats, "
         "-inf, tiny negatives). A value case is always non-trivial; distinct = distinct (energy, etype, samplings)")
-BOUNDS = {"energy_eV": [1.0, 1.0e7], "grid_points": {"quick": 160, "thorough": 4000},
-          "random_points": {"quick": 120, "thorough": 6000}, "gap": [1e-9, 1.0],
+BOUNDS = {"energy_eV": [1.0, 1.0e7], "grid_points": {"quick": 160, "thorough": 2000},
+          "random_points": {"quick": 120, "thorough": 3000}, "gap": [1e-9, 1.0],
           "reciprocal_sampling_1_per_A": [1e-4, 10.0],
           "nonpositive": [0, 0.0, -0.0, -1, -1.0, -1e-300, -5e-324, -0.5, -80e3, -300000, -1e7, "-inf"]}
 EXHAUSTIVE = False
